@@ -23,6 +23,12 @@ func genStorm(t *rapid.T) *StormCase {
 	if pile && (size == "small" || size == "medium") {
 		size = "large"
 	}
+	// crowd: very many requesters of one or two addresses whose holds overlap,
+	// so that one connection has hundreds of holders at the same moment
+	crowd := !pile && rapid.SampledFrom(oneIn10).Draw(t, "crowd")
+	if crowd {
+		size = rapid.SampledFrom([]string{"large", "huge", "huge"}).Draw(t, "crowdsize")
+	}
 	switch size {
 	case "small":
 		n = rapid.IntRange(1, 12).Draw(t, "n")
@@ -40,6 +46,9 @@ func genStorm(t *rapid.T) *StormCase {
 	if pile {
 		addrMode = "many"
 	}
+	if crowd {
+		addrMode = "few"
+	}
 	switch addrMode {
 	case "few":
 		sc.Addrs = rapid.IntRange(1, 3).Draw(t, "addrs")
@@ -56,6 +65,12 @@ func genStorm(t *rapid.T) *StormCase {
 		maxStart = rapid.SampledFrom([]int{0, 2, 5}).Draw(t, "pilestart")
 		minDur, maxDur = maxStart+1, maxStart+1+rapid.SampledFrom([]int{5, 20, 40}).Draw(t, "piledur")
 	}
+	minHold := 0
+	if crowd {
+		maxStart = rapid.SampledFrom([]int{0, 2, 5}).Draw(t, "crowdstart")
+		maxDur = rapid.SampledFrom([]int{0, 3, 10}).Draw(t, "crowddur")
+		minHold = maxStart + maxDur + 1
+	}
 	sc.Dials = rapid.SliceOfN(rapid.Custom(func(t *rapid.T) StormDial {
 		return StormDial{Dur: rapid.IntRange(minDur, maxDur).Draw(t, "dur"), OK: rapid.SampledFrom(twoIn3).Draw(t, "ok")}
 	}), 1, 6).Draw(t, "dials")
@@ -65,7 +80,7 @@ func genStorm(t *rapid.T) *StormCase {
 			A:     rapid.IntRange(0, sc.Addrs-1).Draw(t, "a"),
 			Start: rapid.IntRange(0, maxStart).Draw(t, "start"),
 			Ctx:   rapid.SampledFrom([]int{0, 0, 0, 1, 1, 2, 2, 2}).Draw(t, "ctx"),
-			Hold:  rapid.IntRange(0, 30).Draw(t, "hold"),
+			Hold:  rapid.IntRange(minHold, minHold+30).Draw(t, "hold"),
 			Rel:   rapid.SampledFrom([]int{0, 0, 0, 0, 0, 1, 1, 2, 3}).Draw(t, "rel"),
 			Again: rapid.SampledFrom([]int{0, 0, 0, 0, 1, 2}).Draw(t, "again"),
 			Nest:  rapid.SampledFrom(oneIn8).Draw(t, "nest"),
